@@ -277,6 +277,52 @@ fn type_shadow_case(ctx: &mut Ctx, case: u64, rng: &mut Rng) {
     ctx.shape_str(&format!("shadow|{want_func}|{want_inst}|{fx_mode}|{inl_mode}"));
 }
 
+/// Fourth workload: the world and the component agree on everything except, sometimes, the KIND of
+/// a resource handle (`borrow<r>` against an owned `r`) in a parameter, a result or inside a list.
+fn handle_kind_case(ctx: &mut Ctx, case: u64, rng: &mut Rng) {
+    let shapes = ["consume: func(x: {H});", "consume: func(x: list<{H}>);", "consume: func(a: u8, x: {H}) -> u8;"];
+    let shape = *rng.pick(&shapes);
+    let dir = if rng.chance(1, 2) { "import" } else { "export" };
+    let comp_h = if rng.chance(1, 2) { "borrow<r>" } else { "r" };
+    let world_h = if rng.chance(1, 2) { comp_h } else if comp_h == "r" { "borrow<r>" } else { "r" };
+    let conforms = comp_h == world_h;
+    let w = |pkg: &str, h: &str| format!("package {pkg};\n\nworld w {{\n    {dir} h: interface {{\n        resource r;\n        {}\n    }}\n    export fx: func();\n}}\n", shape.replace("{H}", h));
+    let (Some(c0), Some(world_pkg)) = (
+        catch(|| witgen::build_component(&[], &w("test:c0", comp_h), "w")).ok().and_then(|r| r.ok()),
+        catch(|| witgen::encode_wit_package(&[], &w("test:tgt", world_h))).ok().and_then(|r| r.ok()),
+    ) else {
+        ctx.count("gen-fail");
+        return;
+    };
+    let body = if dir == "export" { "let i = new test:c0 { ... };\nexport i[\"h\"];\nexport i[\"fx\"];\n" } else { "let i = new test:c0 { ... };\nexport i[\"fx\"];\n" };
+    let with_target = format!("package test:comp targets test:tgt/w;\n{body}");
+    let without_target = format!("package test:comp;\n{body}");
+    let input = json!({"component": w("test:c0", comp_h), "target": w("test:tgt", world_h), "document": with_target});
+    let packages = vec![("test:c0".to_string(), c0), ("test:tgt".to_string(), world_pkg.clone())];
+    ctx.eval();
+    let Ok((v_resolve, _)) = resolve_verdict(&with_target, &packages) else {
+        ctx.count("pipeline-panic-skipped");
+        return;
+    };
+    ctx.count(if conforms { "handle-kind:same" } else { "handle-kind:differs" });
+    if (v_resolve == Verdict::Accept) != conforms {
+        ctx.violation(case, &format!("C11:handle-kind:resolve-verdict:{}-vs-expected-{}", class(&v_resolve), if conforms { "accept" } else { "reject" }), format!("component has `{comp_h}`, world has `{world_h}` ({dir}); Document::resolve -> {v_resolve:?}"), input.clone());
+    }
+    if let Ok((Verdict::Accept, Some(output))) = resolve_verdict(&without_target, &packages[..1]) {
+        if let Ok(Ok(v)) = catch(|| standalone_verdict(&world_pkg, &output)) {
+            if (v == Verdict::Accept) != conforms {
+                ctx.violation(case, &format!("C11:handle-kind:standalone-verdict:{}-vs-expected-{}", class(&v), if conforms { "accept" } else { "reject" }), format!("component has `{comp_h}`, world has `{world_h}` ({dir}); validate_target -> {v:?}"), input.clone());
+            }
+        }
+        if let Ok(r) = reference_verdict(&world_pkg, &output) {
+            if r != conforms {
+                ctx.violation(case, &format!("C11:handle-kind:reference-verdict:{r}-vs-expected-{conforms}"), format!("wasmparser `output <: world` = {r}"), input.clone());
+            }
+        }
+    }
+    ctx.shape_str(&format!("handle|{shape}|{dir}|{comp_h}|{world_h}"));
+}
+
 pub fn run(ctx: &mut Ctx) {
     let total = ctx.n(15_000, 6_000_000);
     // directed witness of the recorded finding (resource of an interface that the world both imports,
@@ -294,6 +340,11 @@ pub fn run(ctx: &mut Ctx) {
         if !fixed && case % 5 == 4 {
             let mut rng = ctx.rng(case);
             merged_import_case(ctx, case, &mut rng);
+            continue;
+        }
+        if !fixed && case % 10 == 7 {
+            let mut rng = ctx.rng(case);
+            handle_kind_case(ctx, case, &mut rng);
             continue;
         }
         if !fixed && case % 10 == 3 {
